@@ -10,10 +10,9 @@
 
   Hypotheses added to the brief's:
     `SeedOk r p`   a DATE seed has no BYHOUR/BYMINUTE/BYSECOND (as for the daily / weekly fillers)
-    `MlySup r`     BYMONTHDAY has at most 62 values (the parser's bit set), and BYDAY has no ordinals when BYMONTHDAY is
-                   there too: the code ignores such entries (`wd_mask >> 1`), the specification's `bydayLimit` reads
-                   them as plain weekdays — e.g. FREQ=MONTHLY;BYMONTHDAY=1;BYDAY=1MO: the code gives every 1st of a
-                   month, the specification only those that are Mondays
+    `MlySup r`     BYMONTHDAY has at most 62 values (the parser's bit set).  BYDAY next to BYMONTHDAY limits through
+                   `dow_limit_p`: a plain entry lets every such weekday pass, a numbered one the n-th of the month —
+                   e.g. FREQ=MONTHLY;BYMONTHDAY=1;BYDAY=1MO: those 1sts of a month that are Mondays
     `MlyFirst r p` (completeness only) the rule has an occurrence within its first 336 periods: the code gives up
                    after MLY_TRIES = 337 periods without one; the calendar repeats after 336 months, so later periods
                    bring nothing new, except when the only dates the rule allows in the cycle fall into the seed's month
